@@ -131,6 +131,203 @@ def cases(rng, which, count):
                 if rng.random() < 0.6:
                     fl = rng.choice([fl + ["-o", rng.choice(["out_", "x."])], ["-o", "o"] + fl])
                 yield Case("cli_libf", [st, "part.txt=" + txt, "split"] + fl, True, "cli-split")
+            elif w == "extract":
+                # `extract --coordinates <file>`: genes of 1-3 blocks (any order, overlapping), on the alignment or on
+                # an ungapped reference row, either strand, translated or not; tab-separated or GFF annotation;
+                # boundary blocks (touching / beyond the end, empty, reversed) and malformed files now and then
+                k = rng.random()
+                if k < 0.15:
+                    pool = "ARNDCQEGHILKMFPSTWYV-"       # a protein alignment: never translated, no reverse strand
+                elif k < 0.55:
+                    pool = "ACGT" + "-" * rng.choice([0, 2, 6])
+                else:
+                    pool = "ACGTacgtNRY-"
+                er = [(nm, "".join(rng.choice(pool) for _ in range(L))) for nm, _ in rows]
+                if k < 0.15:
+                    er[0] = (er[0][0], er[0][1][:-1] + rng.choice("EFILPQ"))
+                names = [r[0] for r in er]
+                fl = []
+                ref = None
+                if rng.random() < 0.45:
+                    ref = rng.choice(names) if rng.random() < 0.88 else rng.choice(["nope", "none"])
+                    fl += ["--ref-seq", ref]
+                refrow = dict(er).get(ref)
+                top = L if refrow is None else max(1, sum(1 for c in refrow if c != "-"))
+
+                def block():
+                    q = rng.random()
+                    if q < 0.03:
+                        return rng.choice([(-1, 1), (0, L + 1), (top, top), (top - 1, top + 1), (2, 1), (L, L), (0, 0)])
+                    if q < 0.2:
+                        return rng.choice([(0, top), (0, 1), (max(0, top - 1), top), (0, min(3, top))])
+                    s = rng.randint(0, max(0, top - 1))
+                    if rng.random() < 0.7:
+                        e = min(top, s + 3 * rng.randint(1, 3))
+                        if e <= s:
+                            e = s + 1
+                    else:
+                        e = rng.randint(s + 1, max(s + 1, top))
+                    return (s, e)
+                genes = []
+                for gi in range(rng.choice([0, 1, 1, 2, 2, 3, 4])):
+                    bl = [block() for _ in range(rng.choice([1, 1, 1, 2, 2, 3]))]
+                    genes.append((rng.choice(["orf1", "orf2", "g.3", "N_4", "S", "pol"]), bl, rng.choice([None, "+", "+", "-", "-", "."])))
+                if rng.random() < 0.6:
+                    fl += ["--translate", str(rng.choice([-1, 0, 0, 0, 1, 1, 2, 2, 3] if rng.random() < 0.5 else [0, 1, 2]))]
+                if rng.random() < 0.3:
+                    fl += ["--prefix", rng.choice(["p_", "x.", "a"])]
+                if rng.random() < 0.3:
+                    fl += ["--suffix", rng.choice(["_s", ".cds", "1"])]
+                if rng.random() < 0.12:
+                    fl += rng.choice([["-o", "."], ["--output", "."], ["-o", "."], ["-o", "sub"]])
+                if rng.random() < 0.3:
+                    # GFF: gene lines give the names of the ids, CDS lines the blocks (1-based, inclusive)
+                    lines = []
+                    ids = {}
+                    for gi, (gname, bl, strand) in enumerate(genes):
+                        gid = "gene%d" % gi if rng.random() < 0.8 else "gene0"
+                        ids[gid] = gname
+                        st = strand or "+"
+                        lines.append("chr~src~gene~%d~%d~.~%s~.~ID=%s;Name=%s" % (min(b[0] for b in bl) + 1, max(b[1] for b in bl), st, gid, gname))
+                        if rng.random() < 0.3:
+                            lines.append("chr~src~mRNA~%d~%d~.~%s~.~ID=rna%d;Parent=%s" % (bl[0][0] + 1, bl[0][1], st, gi, gid))
+                        cds = ["chr~src~CDS~%d~%d~.~%s~0~ID=cds%d;Parent=%s" % (s + 1, e, rng.choice([st, st, "+", "-"]), gi, gid) for s, e in bl]
+                        if rng.random() < 0.2:
+                            later = list(cds)
+                            cds = []
+                        else:
+                            later = []
+                        lines += cds
+                        genes[gi] = (gname, bl, strand, later)
+                    for g in genes:
+                        lines += g[3]
+                    q = rng.random()
+                    if q < 0.05 and lines:
+                        lines[rng.randrange(len(lines))] = "chr~src~CDS~1~2~.~+~0"                    # 8 columns
+                    elif q < 0.1 and lines:
+                        lines.append("chr~src~CDS~1~%s~.~+~0~Parent=%s" % (rng.choice(["x", "", "2"]), rng.choice(["nogene", "", "gene0"])))
+                    elif q < 0.15 and lines:
+                        lines.append("chr~src~%s~1~2~.~+~0~ID=a=b;Parent" % rng.choice(["CDS", "gene", "exon"]))
+                    txt = "".join(l + "|" for l in lines)
+                    fl.append("--gff")
+                else:
+                    lines = []
+                    for gname, bl, strand in genes:
+                        rngd = list(bl)
+                        ln = "%s~%s~%s" % (",".join(str(b[0]) for b in rngd), ",".join(str(b[1]) for b in rngd), gname)
+                        if strand:
+                            ln += "~" + strand
+                        lines.append(ln)
+                    q = rng.random()
+                    if q < 0.04 and lines:
+                        lines[rng.randrange(len(lines))] = rng.choice(["0~1", "0,1~2~g", "a~2~g", "0~~g", "0~1~g~+~x", ""])
+                    elif q < 0.08:
+                        lines.append(rng.choice(["0~1", "0,1~2~g", "0~b~g", "~1~g"]))
+                    txt = "".join(l + "|" for l in lines)
+                    if lines and rng.random() < 0.15:
+                        txt = txt[:-1]                       # last line without a newline
+                cfile = "ann.txt"
+                argv = ["extract", "--coordinates", cfile] + fl
+                q = rng.random()
+                if q < 0.03:
+                    argv = ["extract"] + fl                                     # no annotation file: refused
+                elif q < 0.06:
+                    argv = ["extract", "--coordinates", "missing.txt"] + fl
+                elif q < 0.4:
+                    argv = ["extract"] + fl + ["--coordinates", cfile]
+                yield Case("cli_libf", [esc(fasta(er)), cfile + "=" + txt, "extract"] + argv[1:], True,
+                           "cli-extract" + ("-gff" if "--gff" in fl else "") + ("-ref" if ref else "") + ("-translate" if "--translate" in fl else ""))
+            elif w == "pssm":
+                # `compute pssm`: counts, the four normalisations and the logo, pseudo-counts (values a float64 holds
+                # exactly), log2; 1-16 rows (sixteenths are ties of the three-decimal rounding), both alphabets,
+                # characters outside the alphabet (gaps, N, lower case), columns of one character
+                nr = rng.choice([1, 2, 3, 4, 5, 7, 8, 16, 16, 32])
+                k = rng.random()
+                if k < 0.25:
+                    pools = ["ARNDCQEGHILKMFPSTWYV", "ARNDCQEGHILKMFPSTWYV-X", "AR", "L", "arndEFILPQ*"]
+                else:
+                    pools = ["ACGT", "ACGT", "ACGT-", "ACGTacgtN-", "A", "AC", "-", "ACGTRY", "AAAC", "GGGGGGGT"]
+                cols = ["".join(rng.choice(c) for _ in range(nr)) for c in (rng.choice(pools) for _ in range(rng.randint(1, 12)))]
+                if k < 0.25:
+                    cols[0] = rng.choice("EFILPQ") + cols[0][1:]            # not a nucleotide alignment for the reader
+                pr = [("s%d" % i, "".join(c[i] for c in cols)) for i in range(nr)]
+                groups = []
+                if rng.random() < 0.4:
+                    groups.append([rng.choice(["-l", "--log"])])
+                if rng.random() < 0.5:
+                    groups.append([rng.choice(["-c", "--pseudo-counts"]), rng.choice(["0", "0.0", "1", "0.5", "0.25", "2", "1.5", "0.125", "3"])])
+                if rng.random() < 0.85:
+                    groups.append([rng.choice(["-n", "--normalization"]), str(rng.choice([0, 1, 1, 2, 2, 3, 3, 4, 4, 4] if rng.random() < 0.93 else [5, -1]))])
+                rng.shuffle(groups)
+                fl = [x for g in groups for x in g]
+                yield Case("cli_lib", [esc(fasta(pr)), "compute", "pssm"] + fl, True, "cli-pssm")
+            elif w == "summary":
+                # `stats` without sub-command: length, rows, alleles per site (4 decimals), variable sites, character
+                # table (6 decimals), alphabet; columns of gaps / specials only, mixed case, 1-16 rows, both alphabets
+                nr = rng.choice([1, 2, 3, 4, 5, 7, 16])
+                if rng.random() < 0.25:
+                    pools = ["ARNDCQEGHILKMFPSTWYV", "ARNDCQEGHILKMFPSTWYV-X*", "AR", "-", "arndEFILPQ*", "EO", "J1"]
+                else:
+                    pools = ["ACGT", "ACGT-", "ACGTacgtN-", "A", "AC", "-", "-.*", "ACGTRY", "Aa", "*", "."]
+                cols = ["".join(rng.choice(c) for _ in range(nr)) for c in (rng.choice(pools) for _ in range(rng.randint(1, 14)))]
+                sr = [("s%d" % i, "".join(c[i] for c in cols)) for i in range(nr)]
+                yield Case("cli_lib", [esc(fasta(sr)), "stats"], True, "cli-stats-summary")
+            elif w == "divide":
+                # `divide`: one file per alignment of a multi-alignment Phylip input (or of the single FASTA one), groups
+                # of n rows numbered over all alignments, FASTA output forced, prefix; plain sequences with --unaligned
+                from driver import multigen
+                fl = []
+                if rng.random() < 0.6:
+                    fl += [rng.choice(["-o", "--output"]), rng.choice(["div", "out", "x.y", "a_b"])]
+                if rng.random() < 0.5:
+                    fl += ["--nb-sequences", str(rng.choice([0, 1, 2, 2, 3, 4, 7]))]
+                if rng.random() < 0.35:
+                    fl.append(rng.choice(["-f", "--out-fasta"]))
+                k = rng.random()
+                if k < 0.55:
+                    names = ["n%d" % i for i in range(rng.randint(1, 6))]
+                    als = multigen.alignments(rng, k=rng.randint(1, 4), names=names, alphabet=rng.choice(["ACGT", "ACGTacgtNRY", "ARNDCQEGHILKMFPSTWYV"]), lmin=1, lmax=70)
+                    txt = "".join(multigen.phylip(a) for a in als)
+                    q = rng.random()
+                    if q < 0.08:
+                        txt += " 2 3\nx  ACG\n"                     # a last alignment that ends too early
+                    elif q < 0.12:
+                        txt = ""
+                    fl.append(rng.choice(["-p", "--phylip"]))
+                    yield Case("cli_libf", [esc(txt), "_", "divide"] + fl, True, "cli-divide-phylip")
+                elif k < 0.8:
+                    yield Case("cli_libf", [st, "_", "divide"] + fl, True, "cli-divide-fasta")
+                else:
+                    sq = [("q%d" % i, "".join(rng.choice("ACGTN") for _ in range(rng.randint(1, 40)))) for i in range(rng.randint(1, 7))]
+                    yield Case("cli_libf", [esc(fasta(sq)), "_", "divide", "--unaligned"] + fl, True, "cli-divide-unaligned")
+            elif w == "identical":
+                # `identical -c file`: the same rows in another order, a changed residue / case / name, a row more or less
+                comp = list(rows)
+                k = rng.random()
+                if k < 0.35:
+                    rng.shuffle(comp)
+                elif k < 0.5:
+                    i = rng.randrange(n)
+                    j = rng.randrange(L)
+                    c = comp[i][1][j]
+                    comp[i] = (comp[i][0], comp[i][1][:j] + rng.choice([c.swapcase(), "A" if c != "A" else "C", "-" if c != "-" else "N"]) + comp[i][1][j + 1:])
+                elif k < 0.6:
+                    i = rng.randrange(n)
+                    comp[i] = (comp[i][0] + rng.choice(["x", "_"]), comp[i][1])
+                elif k < 0.7:
+                    comp.append(("more", comp[0][1]))
+                elif k < 0.8 and n > 1:
+                    comp.pop(rng.randrange(n))
+                elif k < 0.85:
+                    comp = [(nm, sq + "A") for nm, sq in comp]
+                elif k < 0.9:
+                    comp[0] = (comp[0][0], comp[0][1] + "A")            # not an alignment (when there is another row)
+                elif k < 0.93:
+                    i, j = rng.randrange(n), rng.randrange(n)
+                    comp[i] = (comp[j][0], comp[i][1])                  # a name twice (when i != j)
+                cfile = rng.choice(["c.fa", "other.fasta", "none.fa"])
+                argv = ["identical", rng.choice(["-c", "--compared"]), cfile if rng.random() < 0.95 else "missing.fa"]
+                yield Case("cli_libf", [st, cfile + "=" + esc(fasta(comp))] + argv, True, "cli-identical")
             elif w == "consensus":
                 fl = [f for f in ("--ignore-gaps", "--ignore-n") if rng.random() < 0.4]
                 yield Case("cli_lib", [st, "consensus"] + fl, True, "cli-consensus")
